@@ -6,7 +6,7 @@ props="$@"; [ -z "$props" ] && props=$(echo $id | cut -d- -f1)
 if [ -n "$(git -C /repo status --porcelain --untracked-files=no)" ]; then echo "/repo dirty"; exit 2; fi
 git -C /repo apply $PWD/seeded/$id/patch.diff || { echo "patch does not apply"; exit 2; }
 for p in $props; do
-  out=$(timeout 1200 ./check $p --tier ${TIER:-quick} 2>&1 | grep -E "^(VIOLATION|OK|KNOWN)" | head -2 | tr '\n' ' ')
+  out=$(timeout 1200 ./check $p --tier ${TIER:-quick} 2>&1 | grep -E "^(VIOLATION|OK)" | head -2 | tr '\n' ' ')
   echo "$id -> $p: $out"
 done
 git -C /repo checkout -- .
